@@ -7,6 +7,7 @@ Line-protocol driver for the quorum model (C06).
   setstrat <strategy> <custom Rat|none>                      `set_strategy`
   vote <K:weight:rel:conf>*                                  K ∈ P E B D U X (PERMIT EXECUTE BLOCK DEFER other raises)
                                                              conf ∈ Rat | none (no confidence in payload) | bad
+  realvote <safe|danger|inject> <atpBudget> <n>              a fresh colony of n real BioAgent voters, current configuration
   → reached decision permit block abstain total thresholdTag [vote kinds:weight:conf] ## branch tags
 -/
 open Operon Operon.Proto Operon.Quorum
@@ -67,6 +68,18 @@ def thresholdTag (cfg : Cfg) (colony : Nat) (r : Result) (gated : Bool) : String
   else if cfg.strategy = .threshold then s!"cnt:{showRat (r.thresholdUsed * natR colony)}"
   else showRat r.thresholdUsed
 
+def voteLine (st : DSt) (cfg : Cfg) (voters : List Voter) (tagPrefix : String) : DSt × String :=
+  if runVoteRaises cfg voters then (st, s!"raise:ZeroDivisionError ## {tagPrefix}{showStrategy cfg.strategy}:raise")
+  else
+    let r := runVote cfg voters
+    let gated := decide (activeCount (collect voters) < cfg.minVoters)
+    let tag := if gated then s!"{tagPrefix}gate"
+      else s!"{tagPrefix}{showStrategy cfg.strategy}:{if r.reached then "permit" else "block"}"
+    (st, joinSp [showBool r.reached, showVT r.decision, toString r.permit, toString r.block,
+      toString r.abstain, toString r.total, thresholdTag cfg voters.length r gated,
+      showList (r.votes.map fun v => s!"{showVT v.kind}:{showRat v.weight}:{showRat v.conf}")]
+      ++ s!" ## {tag}")
+
 def step (st : DSt) (toks : List String) : DSt × String :=
   match toks with
   | ["cfg", "emergency", c, _] =>
@@ -80,18 +93,19 @@ def step (st : DSt) (toks : List String) : DSt × String :=
     match strategyOf? s, st.cfg with
     | some strat, some cfg => ({ cfg := some ⟨strat, customOf c, cfg.minVoters⟩ }, "ok")
     | _, _ => (st, "bad-op")
+  | ["realvote", pc, budget, n] =>
+    let p? : Option PromptClass :=
+      match pc with
+      | "safe" => some .safe
+      | "danger" => some .dangerous
+      | "inject" => some .rejected
+      | _ => none
+    match p?, st.cfg with
+    | some p, some cfg => voteLine st cfg (bioVoters p (natD budget) (natD n)) "real:"
+    | _, _ => (st, "bad-op")
   | "vote" :: vs =>
     match votersOf? vs, st.cfg with
-    | some voters, some cfg =>
-      if runVoteRaises cfg voters then (st, s!"raise:ZeroDivisionError ## {showStrategy cfg.strategy}:raise")
-      else
-        let r := runVote cfg voters
-        let gated := decide (activeCount (collect voters) < cfg.minVoters)
-        let tag := if gated then "gate" else s!"{showStrategy cfg.strategy}:{if r.reached then "permit" else "block"}"
-        (st, joinSp [showBool r.reached, showVT r.decision, toString r.permit, toString r.block,
-          toString r.abstain, toString r.total, thresholdTag cfg voters.length r gated,
-          showList (r.votes.map fun v => s!"{showVT v.kind}:{showRat v.weight}:{showRat v.conf}")]
-          ++ s!" ## {tag}")
+    | some voters, some cfg => voteLine st cfg voters ""
     | _, _ => (st, "bad-op")
   | _ => (st, "bad-op")
 
